@@ -75,6 +75,9 @@ def cases(tier, seed):
                         "trigger": trig, "cap": 16 if tier == "quick" else 80})
         out.append({"name": "loop.timer/%s" % ">".join(layers), "kind": "timer", "layers": layers,
                     "cap": 14 if tier == "quick" else 60})
+    for order in (["long", "short"], ["short", "long"], ["long", "short", "mid"], ["mid", "long", "short", "short"]):
+        for form in ("executor", "f_timeout"):
+            out.append({"name": "ext.timeout/%s/%s" % (form, "-".join(order)), "kind": "tmo", "order": order, "form": form})
     combs = ["zip", "and", "or", "sequence", "traverse", "apply", "map", "flat_map", "nocancel", "proxy", "timeout"]
     for c in combs:
         out.append({"name": "comb.end/%s" % c, "kind": "comb", "comb": c, "n": 3 if tier == "quick" else 4})
@@ -419,8 +422,43 @@ def run_comb(case, res):
                 end(ctx)
 
 
+def run_tmo(case, res):
+    """Work that never ends by itself: the configured timeout is what ends it."""
+    T = {"long": 40.0, "short": 1.0, "mid": 7.0}
+    begin("vt")
+    ctx = Ctx()
+    try:
+        ME = instr.ME
+        me = ManualExecutor("me")
+        ctx.own(me)
+        futs = []
+        t0 = instr.vnow()
+        if case["form"] == "executor":
+            ex = ctx.own(ME.Executors.with_timeout(me, 1000.0))
+            for name in case["order"]:
+                futs.append((name, ex.submit_timeout(T[name], lambda: None)))
+        else:
+            for name in case["order"]:
+                futs.append((name, ME.futures.f_timeout(SpyFuture("in-" + name), T[name])))
+        for horizon in sorted(set(T[n] for n in case["order"])):
+            instr.advance(until=t0 + horizon + 0.05)
+            for name, f in futs:
+                if T[name] <= horizon and not f.done():
+                    res.violation("late/timeout/%s" % case["form"],
+                                  "future with timeout %.1fs (%s) still pending at t0+%.2f; submitted order %s"
+                                  % (T[name], name, instr.vnow() - t0, case["order"]))
+            res.key("tmo", case["form"], "-".join(case["order"]), horizon)
+        res.execs += 1
+        res.count("futures_judged", len(futs))
+        check_common(res)
+    finally:
+        end(ctx)
+
+
 def run_case(case, res):
     k = case["kind"]
+    if k == "tmo":
+        return run_tmo(case, res)
     if k == "ext":
         run_ext(case, res)
     elif k == "wake":
